@@ -9,6 +9,7 @@ require (
 	github.com/emersion/go-msgauth v0.6.8
 	github.com/emersion/go-sasl v0.0.0-20241020182733-b788ff22d5a6
 	github.com/emersion/go-smtp v0.21.3
+	github.com/foxcpp/go-imap-mess v0.0.0-20230108134257-b7ec3a649613
 	github.com/foxcpp/go-mockdns v1.1.0
 	github.com/foxcpp/go-mtasts v0.0.0-20240130093538-1438da2e5932
 	github.com/foxcpp/maddy v0.0.0
@@ -38,7 +39,6 @@ require (
 	github.com/fatih/color v1.18.0 // indirect
 	github.com/foxcpp/go-dovecot-sasl v0.0.0-20200522223722-c4699d7a24bf // indirect
 	github.com/foxcpp/go-imap-i18nlevel v0.0.0-20200208001533-d6ec88553005 // indirect
-	github.com/foxcpp/go-imap-mess v0.0.0-20230108134257-b7ec3a649613 // indirect
 	github.com/foxcpp/go-imap-namespace v0.0.0-20200802091432-08496dd8e0ed // indirect
 	github.com/foxcpp/go-imap-sql v0.5.1-0.20250124140007-8da5567429d5 // indirect
 	github.com/fsnotify/fsnotify v1.8.0 // indirect
